@@ -16,6 +16,17 @@ import itertools
 
 from mc import engine, drive
 
+def _number(digits, base):
+    """value of a digit string, saturating just above the last code point (the standard's algorithm saturates too;
+    int() on thousands of digits is refused by Python >= 3.11)"""
+    v = 0
+    for ch in digits:
+        v = v * base + int(ch, base)
+        if v > 0x10FFFF:
+            return 0x110000
+    return v
+
+
 H = "c14_refs"
 NAMED = html.entities.html5
 MAXLEN = max(len(k) for k in NAMED)
@@ -63,7 +74,7 @@ def decode(text, in_attr):
                 out.append(text[i:k])       # "&#" or "&#x": literal
                 i = k
                 continue
-            out.append(numeric(int(text[k:m], 16 if hexa else 10)))
+            out.append(numeric(_number(text[k:m], 16 if hexa else 10)))
             if text[m:m + 1] == ";":
                 m += 1
             i = m
@@ -305,7 +316,7 @@ def run(run):
         absorb(r, "numeric")
     run.set("numeric_values", 0x110001)
     over = []
-    for digits in (9, 10, 16, 25, 40):
+    for digits in (9, 10, 16, 25, 40, 4300, 4301, 5000, 20000):      # (int() refuses more than 4300 digits since Python 3.11)
         over += ["&#x" + "1" + "0" * (digits - 1) + ";", "&#" + "9" * digits + ";", "&#x" + "f" * digits, "&#" + "0" * digits + "65;",
                  "&#x" + "0" * digits + "41z"]
     over += ["&#;", "&#x;", "&#xg", "&#a", "&#", "&#x", "&#X", "&x", "&;", "&", "&#1114112;", "&#x110000;", "&#xD800;", "&#55296;",
